@@ -18,6 +18,7 @@ binds to the virtual clock as well.
 import sys
 import os
 import heapq
+import re
 import hashlib
 import json
 import time as _time
@@ -32,6 +33,7 @@ real_perf_counter = _time.perf_counter
 real_sleep = _time.sleep
 
 INF = float("inf")
+_ADDR = re.compile(r"0x[0-9a-fA-F]{6,}")
 
 
 class WorkCap(BaseException):
@@ -240,7 +242,7 @@ def classify_exception(e):
     name = type(e).__name__
     if isinstance(e, WorkCap):
         return ("cap", "WorkCap", "")
-    msg = str(e)[:300]
+    msg = _ADDR.sub("0x?", str(e)[:300])    # host object addresses inside messages are not behaviour
     if type(e) is E.TimeLimitError:
         return ("limit_time", name, msg)
     if type(e) is E.MemoryLimitError:
